@@ -118,7 +118,11 @@ def _tx_events(args):
                            [o(lambda i=i: B.cds_pos_to_chunk_relative(i)) for i in range(-1, m + 1)],
                            [o(lambda: B.chunk_relative_start), o(lambda: B.chunk_relative_end), o(lambda: B.chunk_relative_size),
                             o(lambda: B.chunk_relative_strand.to_symbol()), o(lambda: B.cds_start), o(lambda: B.cds_end),
-                            o(lambda: B.chunk_relative_cds_start), o(lambda: B.chunk_relative_cds_end)]])
+                            o(lambda: B.chunk_relative_cds_start), o(lambda: B.chunk_relative_cds_end)],
+                           [[a_, b_, rs_, E.loc_outcome(lambda a_=a_, b_=b_, rs_=rs_: B.transcript_interval_to_chunk_relative(
+                               a_, b_, strands[rs_]))]
+                            for (a_, b_, rs_) in [(rnd.randrange(-1, n + 1), rnd.randrange(0, n + 2), rnd.choice("+-"))
+                                                  for _ in range(4)]]])
         if rnd.random() < 0.5:
             # intersect(location): the interval restricted to another location (1-2 blocks, any strand, with or without
             # ), as a new transcript / feature
